@@ -133,6 +133,12 @@ Recorded(s, q, pos) == /\ recd' = recd \cup {<<s, q>>} /\ UNCHANGED <<cnt, msgs,
 Published(s, q, pos) == /\ Flags(pos, {<<<<s, q>> \in recd, "RecordedBeforePublished">>})
                         /\ UNCHANGED <<cnt, msgs, run, sess, job, task, creq, cached, recd, execs>>
 
+\* the per-stream snapshot (sessions, tasks) was written with n frames: it holds every frame of the stream that is in the log
+Snapshot(s, n, pos) ==
+  LET inlog == Get(cnt, "session:" \o s, 0) + Get(cnt, "task:" \o s, 0) IN
+  /\ Flags(pos, {<<IF Strict THEN inlog = n ELSE inlog \in {0, n}, "SnapshotHasEveryLoggedFrame">>})
+  /\ UNCHANGED <<cnt, msgs, run, sess, job, task, creq, cached, recd, execs>>
+
 \* ================================================================== DESIGN half
 VARIABLES pc,      \* actor -> program counter
           holder,  \* who holds the workspace permit ("" = free)
@@ -181,8 +187,9 @@ EndBeforeSession(r) == /\ Deviation = "run_ended_before_session_ended" /\ pc[r] 
 UnlockedTask(k) == /\ Deviation = "cancelled_queued_task_runs_unlocked" /\ Go(k, "queued", "running") /\ k \in creq
                    /\ Frame(F("task", k, "tstatus", "", "", "", "running"), 0) /\ Keep
 UnlockedProc(k) == /\ Deviation = "cancelled_queued_task_runs_unlocked" /\ Go(k, "running", "proc") /\ holder # k /\ XBegin(k, 0) /\ Keep
-SessEnd(r)   == /\ pc[r] \in {"compiled", "tooled"} /\ pc' = [pc EXCEPT ![r] = "sessended"]
+SessEnd(r)   == /\ pc[r] \in {"compiled", "tooled"} /\ pc' = [pc EXCEPT ![r] = "sessended0"]
                 /\ Frame(F("session", r, "se", "", "", "", ""), 0) /\ Keep
+SessSnap(r)  == Go(r, "sessended0", "sessended") /\ Snapshot(r, Get(cnt, "session:" \o r, 0), 0) /\ Keep
 Cursor(r)    == Go(r, "sessended", "cursored") /\ Frame(F("continuity", Th(r), "cur", r, "", "", ""), 0) /\ Keep
 RunEnd(r)    == /\ pc[r] \in {"sessended", "cursored"} /\ pc' = [pc EXCEPT ![r] = "done"]
                 /\ Frame(F("continuity", Th(r), "re", r, M(r), "", ""), 0) /\ Keep
@@ -211,13 +218,13 @@ TRelease(k) == /\ Go(k, "ended", "done") /\ holder = k /\ holder' = "" /\ UNCHAN
 
 Next == \/ \E a \in Actors : CreateThread(a)
         \/ \E r \in Runs : \/ Post(r) \/ Spawn(r) \/ SessStart(r) \/ Select(r) \/ Compile(r) \/ Acquire(r) \/ ExecBegin(r)
-                           \/ ExecEnd(r) \/ ToolEnded(r) \/ Effects(r) \/ Release(r) \/ SessEnd(r) \/ Cursor(r) \/ RunEnd(r)
+                           \/ ExecEnd(r) \/ ToolEnded(r) \/ Effects(r) \/ Release(r) \/ SessEnd(r) \/ SessSnap(r) \/ Cursor(r) \/ RunEnd(r)
         \/ \E r \in Runs : EarlyRelease(r) \/ LateEffects(r) \/ EndBeforeSession(r)
         \/ \E k \in Tasks : UnlockedTask(k) \/ UnlockedProc(k)
         \/ \E j \in Jobs : JobSpawn(j) \/ JobCkpt(j) \/ JobEnd(j)
         \/ \E k \in Tasks : TSpawn(k) \/ TAcquire(k) \/ TProc(k) \/ TRunning(k) \/ TOutput(k) \/ TCancelReq(k) \/ TProcExit(k) \/ TExit(k) \/ TCancelledQueued(k) \/ TRelease(k)
 Fair == /\ \A a \in Actors : WF_vars(CreateThread(a))
-        /\ \A r \in Runs : WF_vars(Post(r) \/ Spawn(r) \/ SessStart(r) \/ Select(r) \/ Compile(r) \/ ExecBegin(r) \/ ExecEnd(r) \/ ToolEnded(r) \/ Effects(r) \/ Release(r) \/ SessEnd(r) \/ RunEnd(r))
+        /\ \A r \in Runs : WF_vars(Post(r) \/ Spawn(r) \/ SessStart(r) \/ Select(r) \/ Compile(r) \/ ExecBegin(r) \/ ExecEnd(r) \/ ToolEnded(r) \/ Effects(r) \/ Release(r) \/ SessEnd(r) \/ SessSnap(r) \/ RunEnd(r))
                            /\ SF_vars(Acquire(r))
         \* fairness is asked only of steps the system takes by itself; posting more work
         \* (JobSpawn) and cancelling (TCancelReq) are the environment's choice
